@@ -1,6 +1,6 @@
 import json, itertools, collections, sys
 from multiprocessing import Pool
-sys.path.insert(0,'/repo')   # unchanged tree for this probe (read-only use; parsetab signature already matches)
+sys.path.insert(0, __import__('os').environ.get('SUT', '/repo'))   # unchanged tree for this probe (read-only use; parsetab signature already matches)
 from simple_ddl_parser import DDLParser
 S = {
  'T': "CREATE TABLE s1.t1 (a int NOT NULL, b varchar(10) DEFAULT 'x', PRIMARY KEY (a));",
